@@ -92,8 +92,8 @@ def _g2(ctx):
         ctx.check(len(plus) == 1, R, f, plus[0] if plus else f.node, f"{f.name} does not add 1 to the last index to obtain the extent", "extent = last index + 1")
         forms.append((okv, len(plus) == 1))
     ctx.check(forms[0] == forms[1], R, b, b.node.body[-1], "the two occupancy siblings disagree (one-sided edit)", "occupancy siblings agree")
-    acc = [s for s in a.stmts() for t, v, _ in assigned_targets(s) if isinstance(t, ast.Name) and t.id == "result" and isinstance(v, ast.BinOp)]
-    ctx.check(len(acc) == 1 and isinstance(acc[0].value.op, ast.Mult), R, a, acc[0] if acc else a.node, "tile occupancy is not the product of per-rank extents", "occupancy = product over ranks")
+    acc = [s for s in a.stmts() if isinstance(s, ast.AugAssign) and norm(s.target) == "result"]
+    ctx.check(len(acc) == 1 and isinstance(acc[0].op, ast.Mult), R, a, acc[0] if acc else a.node, "tile occupancy is not the product of per-rank extents", "occupancy = product over ranks")
     ctx.floor(R, 11)
 
 
